@@ -285,6 +285,23 @@ def _id_case(repo, it, S, spec):
         k, v = run(it, f, ["g3_sym"], {}, ac)
         if k != "ok" or member_ids(v) != ["g3"]:
             out.append(("query_by_feature_identifiers", f"query_by_feature_identifiers('g3_sym') -> {k}:{member_ids(v) if k == 'ok' else v}", f.qual))
+        # a member named by two of the requested identifiers (its id and its symbol) is returned once; the answer does not depend on
+        # the order the identifiers are given in, nor on the iteration order of the identifier set (another hash seed)
+        from ..interp import other_hash_seed
+        for args in (["g3", "g3_sym"], ["g3_sym", "g3"], ["g1", "g3_sym", "g3", "g1_sym"], ("g3_sym", "g1", "g3")):
+            n += 1
+            want_ids = sorted({a.replace("_sym", "") for a in args})
+            k, v = run(it, f, [args], {}, ac)
+            with other_hash_seed():
+                k2, v2 = run(it, f, [args], {}, ac)
+            got = member_ids(v) if k == "ok" else v
+            order1 = [g.fields["gene_id"] for g in v.fields["genes"]] if k == "ok" else None
+            order2 = [g.fields["gene_id"] for g in v2.fields["genes"]] if k2 == "ok" else None
+            if k != "ok" or got != want_ids:
+                out.append(("query_by_feature_identifiers (a member named twice)", f"query_by_feature_identifiers({list(args)}) -> {k}:{got}; every matching member once: {want_ids}", f.qual))
+            elif order1 != order2:
+                out.append(("query_by_feature_identifiers independent of the hash seed", f"query_by_feature_identifiers({list(args)}) lists the genes as {order1}, and as "
+                            f"{order2} when the identifier set is iterated in the opposite order", f.qual))
     if which == "children":
         # the three kinds of children by name (any case), anything else refused; a variant collection narrowed to some of its
         # variants keeps exactly those, in position order, under its own identity
